@@ -338,6 +338,14 @@ print(count[0])
 
 
 def bounded(chk):
+    n0, f0 = downloads_share_no_file()
+    chk.bounded_result("concurrent_downloads_share_no_file", n0, n0, True,
+                       "real Fetcher.schedule_download_image on (url, title) pairs that map to one file name (same title with different urls, titles collapsed by fs_escape): one download per destination",
+                       [f0] if f0 else [])
+    _bounded_rest(chk)
+
+
+def _bounded_rest(chk):
     import tempfile, shutil
     tmp = tempfile.mkdtemp(prefix="c20_")
     try:
@@ -551,3 +559,50 @@ def replay_write_zip(model, obligation):
     finally:
         zipfile.ZipFile.write = real
         shutil.rmtree(d, ignore_errors=True)
+
+
+# ----------------------------------------------------------------------------- concurrent downloads never share a destination / temp file
+def downloads_share_no_file():
+    """download_with_retries' precondition: no other download writes the same temp file at the same time.  The fetcher
+    derives destination and temp name from the TITLE (fs_escape), but de-duplicates scheduled downloads on (url, title):
+    real Fetcher.schedule_download_image on pairs that map to one file name must start one download only."""
+    import tempfile, shutil
+    from mwlib.network import fetch
+
+    class Pool:
+        def __init__(self):
+            self.spawned = []
+
+        def spawn(self, fn, *a):
+            self.spawned.append(a)
+            return object()
+
+        def add(self, g):
+            pass
+    cases = [("same title, urls differing in the query string", [("http://m/x.png?lang=en", "File:Map.png"), ("http://m/x.png?lang=de", "File:Map.png")]),
+             ("titles that fs_escape maps to one name", [("http://m/1.png", "File:Ab.png"), ("http://m/2.png", "File:A(b).png")]),
+             ("the same pair twice", [("http://m/1.png", "File:Q.png"), ("http://m/1.png", "File:Q.png")]),
+             ("different files (control)", [("http://m/1.png", "File:R.png"), ("http://m/2.png", "File:S.png")])]
+    n = 0
+    for name, pairs in cases:
+        d = tempfile.mkdtemp(prefix="verif_c20_")
+        try:
+            f = fetch.Fetcher.__new__(fetch.Fetcher)
+            f.fsout = fetch.FsOutput(d + "/nuwiki")
+            f.scheduled = set()
+            f.image_download_pool = Pool()
+            f.pool = Pool()
+            f._refcall = lambda fn, *a: fn(*a)
+            for url, title in pairs:
+                n += 1
+                f.schedule_download_image(url, title)
+            dests = [a[1] for a in f.image_download_pool.spawned]
+            temps = [a[2] for a in f.image_download_pool.spawned]
+            if len(set(dests)) != len(dests) or len(set(temps)) != len(temps):
+                return n, {"detail": f"{name}: {len(dests)} concurrent downloads write {len(set(dests))} destination(s) {sorted(set(dests))}",
+                           "witness": {"scheduled": pairs, "destinations": dests}, "class": "shared-download-file"}
+            if name.endswith("(control)") and len(dests) != 2:
+                return n, {"detail": "control: two different files, but not two downloads", "witness": {"scheduled": pairs}, "class": "download-dropped"}
+        finally:
+            shutil.rmtree(d, ignore_errors=True)
+    return n, None
